@@ -179,8 +179,9 @@ def const_default(cx: Cx, fn: FuncInfo, param: str):
     if d is None:
         return None
     from sa.walker import _Ctx, State
-    t = _Ctx(cx.walker, fn, WalkOptions()).ev(d, State())
-    return t
+    c = _Ctx(cx.walker, fn, WalkOptions())
+    c.class_scope = True        # defaults are evaluated in the scope of the class body
+    return c.ev(d, State())
 
 
 # ---------------------------------------------------------------------------------------------- scheduler facts
